@@ -2,6 +2,12 @@
 
 pub mod common;
 pub mod c01;
+pub mod c02;
+pub mod c03_c04;
+pub mod c08;
+pub mod c09;
+pub mod chunky_impls;
+pub mod interval;
 pub mod c10;
 pub mod hist06;
 pub mod quantile;
@@ -19,9 +25,14 @@ pub struct Plan {
 pub fn plan(prop: &str, tier: Tier) -> Option<Plan> {
     match prop {
         "C01" => Some(c01::plan(tier)),
+        "C02" => Some(c02::plan(tier)),
+        "C03" => Some(c03_c04::plan03(tier)),
+        "C04" => Some(c03_c04::plan04(tier)),
         "C05" => Some(quantile_plans::plan05(tier)),
         "C06" => Some(hist06::plan(tier)),
         "C07" => Some(quantile_plans::plan07(tier)),
+        "C08" => Some(c08::plan(tier)),
+        "C09" => Some(c09::plan(tier)),
         "C10" => Some(c10::plan(tier)),
         "C15" => Some(quantile_plans::plan15(tier)),
         _ => None,
